@@ -1,5 +1,7 @@
 //go:build verif
 
+//go:debug asynctimerchan=0
+
 package bal_slb
 
 // C04 — weighted-least-connection mode picks a backend that minimises connNum/weight among the
@@ -23,6 +25,8 @@ import (
 	"strconv"
 	"strings"
 	"testing"
+	"testing/synctest"
+	"time"
 
 	"github.com/bfenetworks/bfe/bfe_balance/backend"
 	"github.com/bfenetworks/bfe/bfe_config/bfe_cluster_conf/cluster_table_conf"
@@ -42,6 +46,13 @@ func c04seedTable() (tab [c04maxTie + 1][]int64, complete bool) {
 	for i, s := range c04seeds {
 		rand.Seed(s)
 		first[i] = rand.Int()
+	}
+	// rand.Seed must really re-seed the global source (it is a no-op under GODEBUG=randseednop=1)
+	for i, sd := range c04seeds {
+		rand.Seed(sd)
+		if rand.Int() != first[i] {
+			complete = false
+		}
 	}
 	tab[0] = []int64{c04seeds[0]}
 	tab[1] = []int64{c04seeds[0]}
@@ -81,10 +92,44 @@ type c04sys struct {
 	ws    []int                 // model: configured weights
 	conn  []int                 // model: active connections
 	avail []bool                // model: availability
+	cfg   string                // part D: "configured weights:phases" (ws holds the ramp weights)
+	part  string                // case id prefix: "A" configured weights, "C" effective weights
+}
+
+// effective weights as they occur in the middle of a slow-start ramp (updateSlowStart moves
+// BackendRR.weight through every integer up to 100x the configured weight): not multiples of 100.
+var c04effAlphabet = []int{0, 1, 50, 99, 100, 150, 299, 300}
+
+// c04newEff builds a real BalanceRR whose backends carry the given *effective* weights
+// (BackendRR.weight set directly, slow start idle so Balance does not recompute them). The
+// reference model judges against exactly these weights: the weight in force.
+func c04newEff(eff []int) *c04sys {
+	ones := make([]int, len(eff))
+	for i := range ones {
+		ones[i] = 1
+	}
+	s := c04new(ones)
+	s.part = "C"
+	for i, rb := range s.brr.backends {
+		rb.weight, rb.current, rb.inSlowStart = eff[i], eff[i], false
+		rb.weightSS.final = eff[i]
+		s.ws[i] = eff[i]
+	}
+	return s
+}
+
+// rampWeights reports whether an eligible backend carries a weight that is not 100x an integer.
+func (s *c04sys) rampWeights() bool {
+	for i, rb := range s.brr.backends {
+		if s.eligible(i) && rb.weight%100 != 0 {
+			return true
+		}
+	}
+	return false
 }
 
 func c04new(ws []int) *c04sys {
-	s := &c04sys{brr: NewBalanceRR("sub"), ws: append([]int(nil), ws...), conn: make([]int, len(ws)), avail: make([]bool, len(ws))}
+	s := &c04sys{part: "A", brr: NewBalanceRR("sub"), ws: append([]int(nil), ws...), conn: make([]int, len(ws)), avail: make([]bool, len(ws))}
 	s.brr.Init(c04conf(ws))
 	for i, b := range s.brr.backends {
 		s.backs = append(s.backs, b.backend)
@@ -150,15 +195,19 @@ func (s *c04sys) ties() (nElig, nMin int) {
 
 func (s *c04sys) inputClass() string {
 	nElig, nMin := s.ties()
+	cls := "some-tied"
 	switch {
 	case nElig == 0:
 		return "none-eligible"
 	case nMin == 1:
-		return "unique-min"
+		cls = "unique-min"
 	case nMin == nElig:
-		return "all-tied"
+		cls = "all-tied"
 	}
-	return "some-tied"
+	if s.rampWeights() {
+		cls += "+ramp-weight"
+	}
+	return cls
 }
 
 // judge returns "" when the answer is acceptable, else the outcome kind.
@@ -219,7 +268,7 @@ type c04chk struct {
 	out         map[string]int64
 	transitions int64
 	unjudgedErr int64
-	sampled     int
+	sampled     map[string]int
 	mute        bool    // prefix ops of a history: executed, not judged again
 	quiet       *c04chk // muted twin used for history prefixes
 }
@@ -315,7 +364,10 @@ func c04popcount(x int) int {
 
 // Part A: one start state.
 func (c *c04chk) startState(s *c04sys, conn []int, mask int) {
-	id := "A:" + vk.IntsString(s.ws) + ":" + vk.IntsString(conn) + ":" + strconv.Itoa(mask)
+	id := s.part + ":" + vk.IntsString(s.ws) + ":" + vk.IntsString(conn) + ":" + strconv.Itoa(mask)
+	if s.part == "D" {
+		id = "D:" + s.cfg + ":" + vk.IntsString(conn)
+	}
 	if !c.r.Case(id) {
 		return
 	}
@@ -337,9 +389,9 @@ func (c *c04chk) startState(s *c04sys, conn []int, mask int) {
 	if nElig >= 2 {
 		c.r.NontrivialN(1)
 	}
-	if c.sampled < 2 && len(s.ws) == 3 && nMin == 2 && nElig == 3 {
-		c.sampled++
-		c.r.Sample(map[string]interface{}{"part": "A", "case": id, "weights": append([]int(nil), s.ws...), "conn": append([]int(nil), conn...),
+	if c.sampled[s.part] < 2 && len(s.ws) == 3 && nMin == 2 && nElig == 3 {
+		c.sampled[s.part]++
+		c.r.Sample(map[string]interface{}{"part": s.part, "case": id, "weights": append([]int(nil), s.ws...), "conn": append([]int(nil), conn...),
 			"avail_mask": mask, "tied_at_min": nMin, "smooth_answers_mask": picked, "simple_answers_mask": got})
 	}
 }
@@ -435,6 +487,82 @@ func (c *c04chk) runHist(root []int, maxW int, hist []int) (key string, ok bool)
 	return s.key(), true
 }
 
+// ---- Part D: the real slow-start path under a fake clock -------------------------------------
+// Runs inside a testing/synctest bubble: time.Now is a fake clock that only moves when the
+// harness sleeps, so initSlowStart/updateSlowStart compute exactly reproducible ramp weights.
+
+const c04ssTime = 100 // seconds for a full ramp
+
+// phase 0 = never restarted (full weight); phase k>=1 = restarted c04elapsed[k-1] ago.
+var c04elapsed = []time.Duration{0, 500 * time.Millisecond, 33 * time.Second, 50 * time.Second, 99700 * time.Millisecond}
+
+// c04ramp builds a BalanceRR with slow start on and drives each restarted backend through the
+// real restart -> initSlowStart -> updateSlowStart path so that "now" is phase[i] after its
+// restart. Must run inside a synctest bubble.
+func (c *c04chk) c04ramp(ws, phase []int) *c04sys {
+	s := c04new(ws)
+	s.part = "D"
+	s.brr.SetSlowStart(c04ssTime)
+	// restart the backends in order of decreasing elapsed time, sleeping the differences
+	done := make([]bool, len(ws))
+	var last time.Duration = -1
+	for {
+		best := -1
+		for i, ph := range phase {
+			if ph > 0 && !done[i] && (best < 0 || c04elapsed[ph-1] > c04elapsed[phase[best]-1]) {
+				best = i
+			}
+		}
+		if best < 0 {
+			break
+		}
+		e := c04elapsed[phase[best]-1]
+		if last >= 0 && last > e {
+			time.Sleep(last - e)
+		}
+		last = e
+		done[best] = true
+		s.backs[best].SetRestart(true)
+		s.brr.Balance(WlcSmooth, nil) // the first request after the restart starts the ramp (not judged here)
+	}
+	if last > 0 {
+		time.Sleep(last)
+	}
+	// weights in force now: recomputed by every Balance call; the clock is frozen from here on
+	s.brr.checkSlowStart()
+	for i, rb := range s.brr.backends {
+		s.ws[i] = rb.weight
+		// independent expectation of the ramp (documented: linear from 0 to full in ssTime)
+		want := ws[i] * 100
+		if phase[i] > 0 {
+			if w := int(int64(ws[i]*100) * int64(c04elapsed[phase[i]-1]) / int64(c04ssTime*time.Second)); w < want {
+				want = w
+			}
+		}
+		if rb.weight != want {
+			c.out["D:ramp-weight-differs-from-linear-formula(unjudged)"]++
+		}
+	}
+	return s
+}
+
+func (c *c04chk) rampStates(ws, phase []int, maxC int) int64 {
+	var n int64
+	base := append([]int(nil), ws...)
+	s := c.c04ramp(base, phase)
+	s.cfg = vk.IntsString(base) + ":" + vk.IntsString(phase)
+	if s.rampWeights() {
+		c.out["D:setup:mid-ramp-weight-in-force"]++
+	} else {
+		c.out["D:setup:only-full-or-zero-weights"]++
+	}
+	c04enum(len(ws), 0, maxC, func(conn []int) {
+		c.startState(s, conn, 1<<uint(len(ws))-1)
+		n++
+	})
+	return n
+}
+
 func c04enum(n, lo, hi int, f func(v []int)) {
 	v := make([]int, n)
 	var rec func(i int)
@@ -454,7 +582,7 @@ func c04enum(n, lo, hi int, f func(v []int)) {
 func TestVerifC04(t *testing.T) {
 	r := vk.Start(t, "C04")
 	defer r.Finish()
-	c := &c04chk{r: r, out: map[string]int64{}}
+	c := &c04chk{r: r, out: map[string]int64{}, sampled: map[string]int{}}
 	var complete bool
 	c.seeds, complete = c04seedTable()
 	c.quiet = &c04chk{r: r, seeds: c.seeds, out: map[string]int64{}, mute: true}
@@ -476,6 +604,17 @@ func TestVerifC04(t *testing.T) {
 			ws, conn := vk.ParseInts(parts[1]), vk.ParseInts(parts[2])
 			mask, _ := strconv.Atoi(parts[3])
 			c.startState(c04new(ws), conn, mask)
+		} else if len(parts) == 4 && parts[0] == "C" {
+			eff, conn := vk.ParseInts(parts[1]), vk.ParseInts(parts[2])
+			mask, _ := strconv.Atoi(parts[3])
+			c.startState(c04newEff(eff), conn, mask)
+		} else if len(parts) == 4 && parts[0] == "D" {
+			ws, phase, conn := vk.ParseInts(parts[1]), vk.ParseInts(parts[2]), vk.ParseInts(parts[3])
+			synctest.Test(t, func(*testing.T) {
+				s := c.c04ramp(ws, phase)
+				s.cfg = parts[1] + ":" + parts[2]
+				c.startState(s, conn, 1<<uint(len(ws))-1)
+			})
 		} else if len(parts) == 3 && parts[0] == "B" {
 			root := vk.ParseInts(parts[1])
 			c.runHist(root, c04bfsMaxW(r), vk.ParseInts(parts[2]))
@@ -516,6 +655,62 @@ func TestVerifC04(t *testing.T) {
 	}
 	r.States(statesA)
 
+	// ---- Part C: start states with mid-ramp effective weights -------------------------------
+	type boundC struct{ n, maxC int }
+	boundsC := []boundC{{2, 6}, {3, 5}}
+	if r.Thorough() {
+		boundsC = []boundC{{2, 8}, {3, 6}, {4, 2}}
+	}
+	var statesC int64
+	for _, bd := range boundsC {
+		c04enum(bd.n, 0, len(c04effAlphabet)-1, func(sym []int) {
+			idx++
+			if stop || !r.Mine(idx) {
+				return
+			}
+			if r.Expired("part C") {
+				stop = true
+				return
+			}
+			eff := make([]int, bd.n)
+			for i, k := range sym {
+				eff[i] = c04effAlphabet[k]
+			}
+			s := c04newEff(eff)
+			c04enum(bd.n, 0, bd.maxC, func(conn []int) {
+				for mask := 0; mask < 1<<uint(bd.n); mask++ {
+					c.startState(s, conn, mask)
+					statesC++
+				}
+			})
+			r.Traces(1)
+		})
+	}
+	r.States(statesC)
+
+	// ---- Part D: mid-ramp weights produced by the real slow-start code (fake clock) ----------
+	type boundD struct{ n, maxW, maxC int }
+	boundsD := []boundD{{2, 3, 5}, {3, 3, 2}}
+	if r.Thorough() {
+		boundsD = []boundD{{2, 3, 8}, {3, 3, 4}}
+	}
+	var statesD int64
+	synctest.Test(t, func(*testing.T) {
+		for _, bd := range boundsD {
+			c04enum(bd.n, 1, bd.maxW, func(ws []int) {
+				idx++
+				if stop || !r.Mine(idx) {
+					return
+				}
+				c04enum(bd.n, 0, len(c04elapsed), func(phase []int) {
+					statesD += c.rampStates(ws, phase, bd.maxC)
+				})
+				r.Traces(1)
+			})
+		}
+	})
+	r.States(statesD)
+
 	// ---- Part B: BFS over histories ----------------------------------------------------------
 	maxNB, maxWB, depth := r.Pick(3, 4), c04bfsMaxW(r), r.Pick(5, 6)
 	if r.Thorough() {
@@ -555,7 +750,7 @@ func TestVerifC04(t *testing.T) {
 			}
 		})
 	}
-	r.Set("bounds", fmt.Sprintf("A: (N,maxW,maxConn) in %v, weights from 0, every availability subset, %d rand seeds; B: N<=%d, root weights 1..%d, weight cycled through 0..%d by Update, depth %d (N=4: %d), ops=3+4N", boundsA, len(c04seeds), maxNB, maxWB, maxWB, depth, depth-1))
+	r.Set("bounds", fmt.Sprintf("A: (N,maxW,maxConn) in %v, weights from 0, every availability subset, %d rand seeds; C: effective weights per backend from %v, (N,maxConn) in %v, every availability subset; D: real slow-start ramp under a fake clock, ssTime=%ds, configured weights 1..3, per backend phase in {full, restarted %v ago}, (N,maxW,maxConn) in %v; B: N<=%d, root weights 1..%d, weight cycled through 0..%d by Update, depth %d (N=4: %d), ops=3+4N", boundsA, len(c04seeds), c04effAlphabet, boundsC, c04ssTime, c04elapsed, boundsD, maxNB, maxWB, maxWB, depth, depth-1))
 }
 
 func c04bfsMaxW(r *vk.Run) int { return r.Pick(2, 3) }
